@@ -9,7 +9,10 @@ requests / calls / returns / interruptions / transitions / pick-ups / status rep
 the case and must produce the same history; the Lean monitors judge the implementation's history.
 
 A second, judge-only search preempts `start_machine` / `stop_machine` themselves (line level, real thread):
-the model takes these requests as atomic.
+the model takes these requests as atomic (the code: one lock around them and around `StateMachine._new_state`;
+when the cycle thread has to wait for that lock the paused request thread is resumed, see `HLock`).
+Module-level requests are recorded as the client issued them (`reqstart` / `reqstop` … `reqdone`), whether or not
+they reach the machine (`post`): that they do is a clause the monitors judge.
 """
 import json
 import os
@@ -23,27 +26,33 @@ META = {
     'level_text': 'Theorems for every program of state/cleanup functions (arbitrary functions of the history), every '
                   'sequence of cycle/start/stop and every placement of concurrent requests at the reads of next_task: '
                   'cycle_calls_bounded (measure and positional), cycle_never_raises, init_flag_exact, cleanup_exactly_once, '
-                  'cleanup_not_interrupted, stop_makes_inactive, last_start_wins are fully proved from one coupling invariant '
-                  'between the machine and the observer; busy_until_finished is partial (each status assignment of '
-                  'start_machine/stop_machine/state_transition preserves the busy invariant; the fold over histories is stated '
-                  'and monitored) and refuted for a pre-empted start_machine.  The model is tied to lib/statemachine.py and '
-                  'states.py by an exhaustive + random correspondence run on the real classes, and the Lean monitors judge '
-                  'every implementation history.',
-    'level_note': 'Trusted: Lean kernel + axioms propext/Classical.choice/Quot.sound; requests of another thread are atomic '
-                  'with respect to the mixin (start_machine/stop_machine as a whole) in the theorems; their preemption is '
-                  'only searched (judge-only).',
+                  'cleanup_not_interrupted, stop_makes_inactive (incl.: a stop request to the module that finds a state '
+                  'function active has posted its stop when it returns), last_start_wins (incl.: a start request to the '
+                  'module has posted its start when it returns) are fully proved from one coupling invariant between the '
+                  'machine and the observer; busy_until_finished is fully proved from a second invariant (engaged => busy '
+                  'status, not engaged => status = declared final/stopped status) for requests that are atomic with respect '
+                  'to the transitions of the machine - which the repaired code guarantees by one lock (fix 5cfb218) - and '
+                  'refuted for a start_machine pre-empted by a transition (the code before the repair).  The model is tied '
+                  'to lib/statemachine.py and states.py by an exhaustive + random correspondence run on the real classes, '
+                  'and the Lean monitors judge every implementation history, also with start_machine/stop_machine '
+                  'pre-empted between any two of their lines.',
+    'level_note': 'Trusted: Lean kernel + axioms propext/Classical.choice/Quot.sound; that the lock makes '
+                  'start_machine/stop_machine/final_status atomic with respect to StateMachine._new_state is not a theorem '
+                  'but searched (line-level pre-emption of the request thread, the cycle thread waiting for the lock; '
+                  'judge-only).',
     'trusted': [
         'attribute names given to start() do not collide with class attributes of StateMachine (otherwise _update_attributes raises inside cycle)',
         'the transition hook does not raise (the hook of HasStates does not, for status codes valid for the module)',
         'final_status is the last action of a function that calls it',
+        'threading.RLock / the module accessLock provide mutual exclusion (the atomicity of module-level requests in the model)',
     ],
     'modelled_not_verified': [
         'time (now, delta), log texts, fast-poll switching, poller triggering',
         'Parameter/announceUpdate machinery behind read_status (the value returned by read_status is observed)',
     ],
     'assumptions': ['all_status_changes = True (default)',
-                    'status codes attached to state functions and status overrides of start_machine are busy codes '
-                    '(hypothesis of busy_until_finished)'],
+                    'status codes attached to state functions and status overrides of start_machine are busy codes, '
+                    'BUSY < ERROR (hypotheses BusyRules / BusyProg / BusyOps of busy_until_finished)'],
 }
 
 NSTATES = 4
